@@ -13,11 +13,11 @@ TRUST = ("Trusted base: Kani 0.68/CBMC 6.11/CaDiCaL; the library models in kani/
          "topological order is prose, the per-step obligations are solver-checked on the real functions).")
 
 LEVEL = {
-    "C01": ("Bounded model checking of the per-rule step: from every pre-state within the bounds that satisfies I1-I3, the real resolve / rebuild / re-hash code leaves each target holding what the command produces from the current sources, returns the true hashes, and records them; the real build() hands each rule H*(hashes of the right targets of its producers).", "3/C01"),
+    "C01": ("Bounded model checking of the per-rule step: from every pre-state within the bounds that satisfies I1-I3, the real resolve / rebuild / re-hash code leaves each target holding what the command produces from the current sources, returns the true hashes, and records them; the MIR of the real build() is interpreted (engine M/protocol) to show each rule is handed H*(hashes of the right targets of its producers, plan order), its own command, history and targets.", "3/C01, A.4"),
     "C02": ("Bounded model checking: at most one execution per rule step, none when the rule was already built from identical sources and every target is in place or in the cache; nothing is touched when everything is up to date; each rule is handled once per build and its history written back once.", "3/C02"),
-    "C03": ("Bounded model checking of the real build() over a sequentialising thread/channel shim with Kahn-network monitors: a rule is handled only after every producer finished successfully, with the hash of the right target of each producer; schedule independence by the stated theorem.", "3/C03, 3.1"),
+    "C03": ("Solver-decided symbolic interpretation of the MIR of the real build() (ChannelPack::new, both spawn loops and worker closures, wait_for_sources_ticket, Packet, join loop) over a thread scheduler with Kahn-network monitors: on every enumerated plan and every placement of failures, a rule's work starts only after its thread has received a packet from every producer of its sources (ordered after them on every schedule) and every producer finished successfully; it is handed the hash of the right target of each producer.", 'A.4, 3.1'),
     "C04": ("Bounded model checking: for every placement of failing rules / missing leaves the real build() runs exactly the rules none of whose producers failed, reports one error per failure, records nothing for failed rules; the real command-outcome mapping and target re-hash report the right error kind naming the first missing target.", "3/C04"),
-    "C05": ("Bounded model checking of the real build(): every Kani panic/overflow/bounds check, no internal send/receive error, Kahn monitors (one send per edge on every path, receive-before-drop, no wait on a later thread) over every plan and failure placement within the bound.", "3/C05, 3.1"),
+    "C05": ('Solver-decided symbolic interpretation of the MIR of the real build() and clean(): on every enumerated plan, failure placement and worker outcome, some thread can always move until all have ended (no deadlock), no panic is reached, every edge carries exactly one packet, no receiver is dropped before its packet arrived (so no send/receive error on any schedule), and the result is Ok or the list of work errors.', 'A.4, 3.1'),
     "C06": ("Bounded model checking with rely/guarantee interference: before every System call of one rule thread that looks at or changes a cache entry, the solver may let a peer back up or restore a byte-identical entry (2 steps per phase); the thread never fails because of it, accepts/recovers only the remembered content, and loses nothing.", "3.2, 3/C06"),
     "C07": ("Bounded model checking: for every pre-state within the bounds that satisfies I1/I3, every mutation issued by the real resolve/back-up/restore/clean code leaves each cache entry holding the content it is named after (asserted after each mutation, so also at every crash prefix).", "3/C07"),
     "C08": ("Bounded model checking: every rename issued by the real code has an absent or byte-identical destination, ruler never creates/chmods files itself, and every content present before a step is at a target or in the cache after each mutation, also when the command then runs or fails.", "3/C08"),
@@ -33,8 +33,6 @@ LEVEL = {
 }
 
 NA = {
-    "C03": "not applicable within reach: a statement about the real build() (spawn loops, closure bodies, join loop); the protocol harness over the sequentialising thread/channel shim is written (kani/harness/build__proto.rs) but CBMC does not get through build(): plan 'one leaf -> one rule' still in symbolic execution after 25 min / 21 GB (DESIGN A.3)",
-    "C05": "not applicable within reach: same reason as C03 -- needs the real build()/clean() under the model checker, which exceeds CBMC's memory even for the smallest plan; Kani has no threads, the closures are not callable items (DESIGN A.3)",
     "C14": "not applicable within reach: the parser is the same kind of heap-heavy String/BTreeMap code as the sorter, on which CBMC exhausts memory; no encoding within the resource caps (DESIGN A.3)",
     "C16": "not applicable within reach: bincode/serde visitor machinery under CBMC runs out of memory (14 GB) on a one-entry RuleHistory round trip (DESIGN A.3)",
     "C19": "not applicable: the endpoints are closures inside a tokio/warp async runtime served over a socket; neither Kani (no async runtime, no sockets) nor a MIR translation of warp/hyper is within reach (DESIGN 3/C19)",
@@ -48,7 +46,7 @@ def main():
         e = registry.PROPERTIES[pid]
         text, ref = LEVEL[pid]
         eng = "kani-step" + ("+mir-smt" if e.get("mir") else "")
-        if e.get("mir") != "sorter":
+        if e["quick"]:
             served["kani-step"].append(pid)
         if e.get("mir"):
             served["mir-smt"].append(pid)
@@ -56,10 +54,14 @@ def main():
         if e.get("mir") == "sorter":
             eng = "mir-smt"
             tech = "SMT (z3) decided path-forking symbolic interpretation of rustc's MIR for sort.rs with symbolic rule names, shapes enumerated"
+        elif e.get("mir") == "proto":
+            if not e["quick"]:
+                eng = "mir-smt"
+                tech = "SMT (z3) decided symbolic interpretation of rustc's MIR for build.rs / packet.rs (build(), clean(), worker closures, channel wiring) over a deterministic thread scheduler with Kahn-network monitors; plans enumerated, worker outcomes symbolic; counterexamples re-run on the real build() under a seeded native scheduler"
+            else:
+                tech += "; plus SMT (z3) decided symbolic interpretation of rustc's MIR for build(), clean() and the worker closures over a deterministic thread scheduler with Kahn-network monitors (plans enumerated, worker outcomes symbolic)"
         elif e.get("mir"):
             tech = "SMT (z3) over a path-wise symbolic execution of rustc's MIR for the base-62 kernels, plus bounded model checking (Kani/CBMC) of from_file"
-        if any(registry.HARNESSES[h].get("kind") == "proto" for h in e["quick"]):
-            tech += "; real build() over a sequentialising thread/channel shim with Kahn-network monitors"
         checks.append({
             "property_id": pid,
             "quick_cmd": "./check %s quick" % pid,
@@ -90,7 +92,7 @@ def main():
             {"name": "kani-step", "path": "/verif/kani", "serves_properties": served["kani-step"],
              "kind_free_text": "Kani proof harnesses appended to a regenerated copy of ruler's modules; symbolic SymSystem pre-state, sequentialising thread/channel shim; CBMC/CaDiCaL decides"},
             {"name": "mir-smt", "path": "/verif/lib/mir_engine.py", "serves_properties": served["mir-smt"],
-             "kind_free_text": "path-wise symbolic execution of rustc's -Zunpretty=mir output for loop-bounded integer kernels, z3 decides (lib/mirsym.py)"},
+             "kind_free_text": "symbolic execution of rustc's -Zunpretty=mir output, z3 decides: (1) lib/mirsym.py + mir_engine.py, path-wise, for the base-62 / timestamp integer kernels; (2) lib/mirint.py, a path-forking interpreter with an object memory model, driven by sort_engine.py (the sorter, symbolic names) and proto_engine.py (build()/clean() over a thread scheduler with Kahn monitors)"},
         ],
         "checks": checks,
         "not_applicable": na,
